@@ -72,7 +72,7 @@ def run_case(case, ctx):
             ctx.cls('branch:' + b['kind'])
         ctx.cls('twice:' + str(st.get('twice')))
         ctx.cls('nbranches:' + str(len(st['branches'])))
-    for winners in combos:
+    for ci, winners in enumerate(combos):
         try:
             model, sn = snlib.convert_sn(desc, case['seed'])
         except Exception as e:
@@ -102,8 +102,23 @@ def run_case(case, ctx):
         else:
             alphas = snlib.set_winners(sn, desc, winners, wrng)
         sn.update_softmax_options(hard=True)
-        with torch.no_grad():
-            y_sn = sn(x)
+        # "for every value of the selection coefficients": in every other combination the last
+        # forward pass ran with OTHER coefficients (its stored sample points at other branches),
+        # the coefficients are then re-assigned - as after loading a checkpoint - and export() is
+        # called straight away; the hard-selection reference is computed after the export
+        export_first = tie is None and ci % 2 == 1
+        if export_first:
+            others = [(w + 1 + wrng.randrange(max(1, len(st['branches']) - 1))) % len(st['branches'])
+                      for st, w in zip(blocks, winners)]
+            snlib.set_winners(sn, desc, others, wrng)
+            with torch.no_grad():
+                sn(x)
+            alphas = snlib.set_winners(sn, desc, winners, wrng)
+            ctx.cls('order:export-before-forward')
+            y_sn = None
+        else:
+            with torch.no_grad():
+                y_sn = sn(x)
         fixed_before = {n: {k: v.clone() for k, v in m.state_dict().items()}
                         for n, m in sn.seed.named_modules()
                         if 'sn_branches' not in n and 'sn_combiner' not in n and
@@ -120,6 +135,9 @@ def run_case(case, ctx):
             ctx.violation('export-crash', dict(detail0, sig=type(e).__name__ + ':' + '+'.join(
                 sorted(set(wkinds))), exc=repr(e)[:300]))
             continue
+        if y_sn is None:
+            with torch.no_grad():
+                y_sn = sn(x)
         # ---- (i) module tree ---------------------------------------------------------------------
         ctx.mon('c03.tree')
         names = [n for n, _ in exported.named_modules()]
